@@ -3,10 +3,10 @@ from rules import paths as PT
 
 
 def run(ctx):
-    PT.flw10_paths_from_sanitised_parts(ctx)
-    PT.set_rules(ctx)
-    PT.flw11_digest_when_modified(ctx)
-    PT.ord8_routing_tables(ctx)
+    ctx.run(PT.flw10_paths_from_sanitised_parts)
+    ctx.run(PT.set_rules)
+    ctx.run(PT.flw11_digest_when_modified)
+    ctx.run(PT.ord8_routing_tables)
     return ctx.finish(
         'Static rules: every path below the tables directory is tables_path / '
         'sanitize_table_name(t) / partition_filename(id, key) and every wal path is a formatted u64; '
